@@ -368,7 +368,19 @@ def check_ranges(ctx, F, adt, order, range_ty, table_const, code_fn):
     short = range_ty.rsplit("::", 1)[-1]
     rule = f"C13.{short.lower()}"
     ctx.rule(rule, f"{short}: table[i] has code i; new -> [start..end), inclusive -> [start..=end], all -> [0..len); bounds are the codes of the arguments")
-    tv = F.const_value(table_const)
+    # the table is the named constant that the range's into_iter slices (found from the code, not by its name)
+    it0 = F.impl_fn("std::iter::IntoIterator", range_ty, "into_iter")
+    pi0 = P.Prov(it0)
+    bases = set()
+    for bi0, t0 in it0.calls():
+        if t0["callee"].get("name") == "index" and bi0 in it0.cfg.reachable:
+            b0 = P.strip(pi0.operand(t0["args"][0]))
+            if b0[0] == "named":
+                bases.add(b0[1])
+    if len(bases) != 1:
+        raise U(rule, f"{short}::into_iter does not slice one constant table (found {sorted(bases)})", it0)
+    table_const = bases.pop()
+    tv = (F.consts.get(table_const) or F.const_statics.get(table_const) or {}).get("value")
     if not tv or tv.get("array") != order:
         ctx.violation(rule, f"{table_const}|table-order", f"{table_const} is {tv.get('array') if tv else None}; expected {order}")
     else:
